@@ -6,7 +6,9 @@ Completeness theorems about the `Prove` layer (`Prove.onLastState`, `Prove.onPro
 `SendLastStateProcess::execute` / `SendLastStateProofProcess::execute`, tied to the code by the
 differential harness): answers an honest server gives are accepted, the peer's proved state and the
 stored tip move to the announced header.  Section 4 is the honest answer without sampled headers
-(banned before 1d2c7d1, accepted now; the old rule is kept as `oldCheckMatched`).  The last section
+(banned before 1d2c7d1, accepted now; the old rule is kept as `oldCheckMatched`).  Section 6 is the TAU check of an
+answer whose first sampled header is the genesis header (failed before c30d699: a second round
+trip; checked from the next header now, `Prove.tauStartIdx`).  Section 5
 keeps, as closed statements about the model, the honest exchanges the code rejects (found by the
 harness, reproduced by the model).
 
@@ -619,5 +621,82 @@ theorem quiet_chain_peer_is_disconnected :
     (onTick asked 20000 []).map (fun o => (o.st, o.disconnect, o.sent)) = .ok (asked, [], []) ∧
     (onTick asked 61001 []).map (·.disconnect) = .ok [1] :=
   ⟨by rfl, by rfl, by rfl, by rfl⟩
+
+/-! ## 6. TAU is not checked from the genesis header (repaired by c30d699) -/
+
+/-- **why TAU must not be checked from the genesis header.**  `verify_tau` compares the epoch
+difficulties `block difficulty × epoch length` of its two headers.  The epoch field of the genesis
+header is `⟨0, 0, 0⟩` — length 0 —, so the epoch difficulty computed from it is 0 and no number of
+`× tau` steps reaches the epoch difficulty of a header in a later epoch: the check fails whatever
+the chain is (here: constant difficulty 8, compact target `0x20200000`, epochs of 1000 blocks,
+`tau = 2`, end header in epoch 3), while from block 1 — epoch `⟨0, 1, 1000⟩`, the true length —
+it passes.  The handler (`Prove.tauStartIdx`) therefore starts from the header after the genesis
+header when there is one before the end header (`tauStartIdx_genesis`), and from the first header
+after the reorg section in every other case (`tauStartIdx_of_ne_zero`, `tauStartIdx_of_not_lt`). -/
+theorem witness_tau_not_from_genesis :
+    verifyTau ⟨0, 0, 0⟩ 0x20200000 ⟨3, 0, 1000⟩ 0x20200000 2 = .fail ∧
+    verifyTau ⟨0, 1, 1000⟩ 0x20200000 ⟨3, 0, 1000⟩ 0x20200000 2 = .pass ∧
+    (∀ (g h1 : VH) (rest : List VH) (k : Nat), g.number = 0 → 1 ≤ k →
+      tauStartIdx (g :: h1 :: rest) 0 k = 1) ∧
+    (∀ (headers : List VH) (reorg endIdx : Nat) (h : VH), headers[reorg]? = some h →
+      h.number ≠ 0 → tauStartIdx headers reorg endIdx = reorg) :=
+  ⟨by decide, by decide, fun g h1 rest _ h0 hk => tauStartIdx_genesis_cons g (h1 :: rest) h0 hk,
+    fun _ _ endIdx _ hh h0 => tauStartIdx_of_ne_zero endIdx hh h0⟩
+
+/-- from the genesis header the check fails for **every** later end header with a non-zero epoch
+difficulty that passes the overflow guards — not only on the witness chain -/
+theorem tau_from_zero_length_epoch_fails (se ee : Epoch) (sc ec tau : Nat) (hlen : se.length = 0)
+    (hne : se.number ≠ ee.number) (hpos : 0 < compactToDifficulty ec * ee.length) :
+    verifyTau se sc ee ec tau ≠ .pass := by
+  have hmul : ∀ n, mulIter tau n 0 = 0 := by
+    intro n
+    induction n with
+    | zero => rfl
+    | succ n ih => simpa [mulIter, satMulU256] using ih
+  unfold verifyTau
+  rw [if_neg hne, hlen]
+  simp only [Nat.mul_zero]
+  split
+  · exact fun h => by cases h
+  · have hnew : Trend.new 0 (compactToDifficulty ec * ee.length) =
+        .increased 0 (compactToDifficulty ec * ee.length) := by
+      unfold Trend.new
+      rw [if_neg (by omega), if_pos hpos]
+    simp only [hnew, Trend.checkTau, hmul]
+    have : ¬ compactToDifficulty ec * ee.length ≤ 0 := by omega
+    simp [this]
+
+/-- block `n` of a test chain from genesis: block difficulty 8, total difficulty `8 * (n + 1)`;
+the epoch is given (the genesis header: `⟨0, 0, 0⟩`; epochs of 2 blocks after it) -/
+def gblk (n : Nat) (e : Epoch) : VH :=
+  ⟨n, n, n, n - 1, 8 * n, n - 1, e, 0x20200000, true, true, true⟩
+
+/-- a request from genesis for block 7 (`last_n_blocks = 1`, boundary 50: block 6; sampled
+difficulties 5 and 30: blocks 0 and 3) -/
+def gContent : ReqContent := ⟨7, 0, 0, 1, 50, [5, 30]⟩
+
+def gSt : St :=
+  { initSt with lastNBlocks := 1, peers := [(1, .requestFirstLastStateProof
+      ⟨gblk 7 ⟨3, 1, 2⟩, 0⟩ ⟨gblk 7 ⟨3, 1, 2⟩, gContent, false, false⟩ 0)] }
+
+/-- the answer: the genesis header and block 3 (epoch 1) sampled, block 6 (epoch 3) last-N -/
+def gMsg : ProofMsg :=
+  ⟨gblk 7 ⟨3, 1, 2⟩, [gblk 0 ⟨0, 0, 0⟩, gblk 3 ⟨1, 1, 2⟩, gblk 6 ⟨3, 0, 2⟩], false, true⟩
+
+/-- **an answer whose first sampled header is the genesis header is accepted at once.**  Shape
+`(0, 2, 1)`; TAU is checked from index `tauStartIdx … = 1` (block 3) to index 2 (block 6) and
+passes, the proof is committed with 200.  From index 0, the genesis header, the check fails: before
+c30d699 the handler answered 201 `RequireRecheck` and asked for the same proof again (with
+`skip_check_tau`). -/
+theorem answer_sampling_genesis_is_accepted :
+    checkMatched 1 gContent gMsg.headers gMsg.last = .ok (.ok (0, 2, 1)) ∧
+    tauStartIdx gMsg.headers 0 2 = 1 ∧
+    verifyTau ⟨0, 0, 0⟩ 0x20200000 ⟨3, 0, 2⟩ 0x20200000 gSt.tau = .fail ∧
+    verifyTau ⟨1, 1, 2⟩ 0x20200000 ⟨3, 0, 2⟩ 0x20200000 gSt.tau = .pass ∧
+    ∃ out, onProof gSt 1 gMsg 0 0 [] 0 [] = .ok out ∧ out.outcome = .ok ∧ out.sent = [] ∧
+      getPeer out.st 1 = some (.ready ⟨gblk 7 ⟨3, 1, 2⟩, 0⟩
+        ⟨gblk 7 ⟨3, 1, 2⟩, [], [gblk 6 ⟨3, 0, 2⟩]⟩) ∧
+      out.st.stored = ⟨64, gblk 7 ⟨3, 1, 2⟩, [(6, 6)]⟩ :=
+  ⟨by rfl, by rfl, by decide, by decide, _, by rfl, rfl, rfl, by rfl, by rfl⟩
 
 end C05
